@@ -2,4 +2,4 @@ import AlgoVerif.Driver.C40
 /-! exe `c40`: msgpack canonical-form classifier (Base.Msgpack) behind the line protocol. -/
 open AlgoVerif
 def main (_args : List String) : IO UInt32 := do
-  Drv.mapLines Driver.C40.handle; return 0
+  Drv.foldLines ([] : Driver.C40.St) Driver.C40.step; return 0
